@@ -214,6 +214,68 @@ class H({base}):
 """
 
 
+PROPSET_SRC = """
+from typing import List
+import utype
+from utype import Schema, Field, Options
+class Order(Schema):
+    __options__ = OPTS
+    name: str
+    tags: List[int] = Field(default_factory=list)
+    _total = 0
+    @property
+    @Field({getter_kw})
+    def total(self) -> int:
+        return self._total
+    @total.setter
+    def total(self, value: int = Field({setter_kw}default=0)):
+        self._total = value
+"""
+
+
+def run_propset(case, ctx, O):
+    """a property field takes its INPUT through the setter: the policy declared there (or invalid_values) governs an offending input,
+    whatever the getter's Field says about the OUTPUT conversion"""
+    pol = case["pol"]
+    sp, gp = case["setter"], case["getter"]
+    gk = []
+    if gp:
+        gk.append(f"on_error={gp!r}")
+    if gp == "exclude":
+        gk.append("required=False")
+    sk = f"on_error={sp!r}, " if sp else ""
+    ns = {"OPTS": O()}
+    try:
+        exec(PROPSET_SRC.format(getter_kw=", ".join(gk), setter_kw=sk), ns)
+    except Exception as e:
+        ctx.count("declaration_rejected:" + type(e).__name__)
+        return
+    Order = ns["Order"]
+    ctx.count("property_setter_policy_cases")
+    eff = sp or pol[2]
+    try:
+        for total in case["inputs"]:
+            d = {"name": "a", "tags": [1], "total": total}
+            good = isinstance(total, int) and not isinstance(total, bool) or (isinstance(total, str) and total.lstrip("-").isdigit())
+            stats = {"offending": 0 if good else 1, "governed": 0 if good or eff == "throw" else 1}
+            if good:
+                exp = ("ok", {"name": "a", "tags": [1], "total": int(total)})
+            elif eff == "throw":
+                exp = ("reject", None)
+            elif eff == "exclude":
+                exp = ("ok", {"name": "a", "tags": [1], "total": 0})
+            else:
+                if (gp or pol[2]) != "preserve":
+                    ctx.skip("preserved input meets a getter whose output policy is not 'preserve' (outside this family)")
+                    continue
+                exp = ("ok", {"name": "a", "tags": [1], "total": total})
+            out = run(lambda: dict(Order.__from__(dict(d))))
+            shp = ("propset", sp, gp, type(total).__name__)
+            judge(ctx, case, shp, pol, d, exp, out, stats)
+    finally:
+        _drop(Order)
+
+
 def make_disc_case(rng, pol):
     """a field holding a union of data classes chosen by Field(discriminator=...): the field follows its policy like any other"""
     inputs = []
@@ -231,6 +293,9 @@ def make_case(i, rng, tier):
     pol = (rng.choice(POL), rng.choice(POL), rng.choice(POL))
     if rng.random() < 0.04:
         return make_disc_case(rng, pol)
+    if rng.random() < 0.02:
+        return {"kind": "propset", "pol": pol, "setter": rng.choice([None, "exclude", "exclude", "preserve", "throw"]),
+                "getter": rng.choice([None, "throw", "preserve", "exclude"]), "inputs": [rng.choice(["not-a-number", "7", 5, "1.5x", "x", "-3"]) for _ in range(5)]}
     r = rng.random()
     if r < 0.6:
         spec = gen_container(rng)
@@ -417,6 +482,8 @@ def run_case(case, ctx):
     O = lambda **kw: Options(invalid_items=pol[0], invalid_keys=pol[1], invalid_values=pol[2], **kw)
     if case["kind"] == "disc":
         return run_disc(case, ctx, O)
+    if case["kind"] == "propset":
+        return run_propset(case, ctx, O)
     if case["kind"] == "container":
         spec = case["spec"]
         T = Rule.parse_annotation(annotation(spec))
